@@ -524,4 +524,42 @@ def standin_many_level_qudits(tier, seed):
 standin_many_level_qudits.prop = "C02"
 
 
-STANDINS = [standin_many_level_qudits, standin_born, standin_born_scenarios, standin_tableau_measure, standin_sampling_statistics, standin_keyed_channels, standin_sympy_conditions, standin_confusion_maps, standin_measurement_orders]
+def standin_nested_scopes(tier, seed):
+    """feed-forward inside NESTED repeated sub-circuits that all measure under one key name: a control reads the record of the innermost enclosing
+    scope that measured the key (deterministic circuits, every simulator; outer and inner records differ, so a control bound to the wrong scope shows)"""
+    import cirq
+
+    q = cirq.LineQubit.range(3)
+    cases, fails = 0, []
+    sims = [("Simulator", lambda: cirq.Simulator(seed=1)), ("DensityMatrixSimulator", lambda: cirq.DensityMatrixSimulator(seed=1)), ("CliffordSimulator", lambda: cirq.CliffordSimulator(seed=1)),
+            ("Simulator(split_untangled_states=False)", lambda: cirq.Simulator(seed=1, split_untangled_states=False))]
+    for outer_bit, inner_bit, inner_reps, outer_reps in itertools.product((0, 1), (0, 1), (1, 2, 3), (1, 2)):
+        inner = cirq.FrozenCircuit(cirq.ResetChannel().on(q[1]), cirq.ResetChannel().on(q[2]), [cirq.X(q[1])] if inner_bit else [], cirq.measure(q[1], key="m"),
+                                   cirq.X(q[2]).with_classical_controls("m"), cirq.measure(q[2], key="out"))
+        # (the outer measurement in a moment of its own BEFORE the inner sub-circuit: only then is the outer record in scope for the inner control)
+        outer = cirq.FrozenCircuit(cirq.Moment(cirq.ResetChannel().on(q[0])), cirq.Moment([cirq.X(q[0])] if outer_bit else []), cirq.Moment(cirq.measure(q[0], key="m")),
+                                   cirq.Moment(cirq.CircuitOperation(inner, repetitions=inner_reps, use_repetition_ids=True)))
+        c = cirq.Circuit(cirq.CircuitOperation(outer, repetitions=outer_reps, use_repetition_ids=True))
+        for sname, mk in sims:
+            cases += 1
+            args = dict(outer_record=outer_bit, inner_record=inner_bit, inner_repetitions=inner_reps, outer_repetitions=outer_reps, simulator=sname)
+            try:
+                r = mk().run(c, repetitions=2)
+            except Exception as ex:
+                fails.append(dict(args=args, failed="nested-scope-raised", clause=f"{ex!r}"))
+                continue
+            outs = {k: v.astype(int).reshape(-1).tolist() for k, v in r.records.items() if k.endswith("out")}
+            if len(outs) != inner_reps * outer_reps or any(v != [inner_bit] * len(v) for v in outs.values()):
+                fails.append(dict(args=dict(args, records=repr(outs)[:400]), failed="nested-scope-feed-forward", clause=f"the inner control must follow the inner record ({inner_bit}) in every iteration; got {outs}"))
+    seen, uniq = set(), []
+    for f_ in fails:
+        key = (f_["failed"], f_["args"]["simulator"])
+        if key not in seen:
+            seen.add(key)
+            uniq.append(f_)
+    return dict(function="cirq-core/cirq/value/condition.py:Condition._with_rescoped_keys_ + circuits/circuit_operation.py[nested scopes]", case="nested-scopes",
+                bound="outer / inner record in {0, 1} x inner repetitions 1-3 x outer repetitions 1-2 (repetition ids in use) x 4 simulators, deterministic", cases=cases, distinct=cases, failures=len(uniq), exhaustive=True, _fails=uniq[:4])
+standin_nested_scopes.prop = "C02"
+
+
+STANDINS = [standin_nested_scopes, standin_many_level_qudits, standin_born, standin_born_scenarios, standin_tableau_measure, standin_sampling_statistics, standin_keyed_channels, standin_sympy_conditions, standin_confusion_maps, standin_measurement_orders]
